@@ -123,6 +123,9 @@ func runPacer(t *simrt.Tape, keep bool) simrt.Outcome {
 			if num == 100 {
 				sp.Amp.Freq = sp.Mean.Freq - 1
 			}
+			if t.Prob(1, 5) {
+				sp.Amp.Freq = -sp.Amp.Freq // the same wave half a period later
+			}
 		} else {
 			sp.Mean, sp.Amp, sp.Period = genRate(t, false), genRate(t, false), genPer(t)
 		}
@@ -131,9 +134,10 @@ func runPacer(t *simrt.Tape, keep bool) simrt.Outcome {
 		m, a := hitsPerNs(sp.Mean), hitsPerNs(sp.Amp)
 		sch = schedule{kind: "sine", lower: true, params: map[string]float64{"peak_rate_per_s": (m + math.Abs(a)) * 1e9, "mean_per_s": m * 1e9, "amp_over_mean": a / m, "period_ns": float64(sp.Period), "start_at": sp.StartAt}}
 		switch {
-		case math.IsInf(m, 0) || math.IsNaN(m) || math.IsInf(a, 0) || math.IsNaN(a) || (sp.Mean.Freq < 0 && sp.Mean.Per < 0) || (sp.Amp.Freq < 0 && sp.Amp.Per < 0) || sp.Amp.Freq < 0 || sp.Amp.Per < 0:
-			// zero time units (infinite or undefined rates), doubly negative rates, negative amplitudes:
-			// the statement promises nothing but the absence of a panic
+		case math.IsInf(m, 0) || math.IsNaN(m) || math.IsInf(a, 0) || math.IsNaN(a) || (sp.Mean.Freq < 0 && sp.Mean.Per < 0) || (sp.Amp.Freq < 0 && sp.Amp.Per < 0) || (a < 0 && -a >= m):
+			// zero time units (infinite or undefined rates), doubly negative rates, negative amplitudes at least as
+			// large as the mean (the declared rate turns negative): the statement promises nothing but the absence of a
+			// panic. A negative amplitude smaller than the mean is the same wave half a period later and is judged.
 			sch.unspecified = true
 		case sp.Period <= 0 || m <= 0 || a >= m:
 			sch.mustStop = true
